@@ -281,6 +281,10 @@ class SymT:
             return t
         if ty == "int" and want == "rat":
             return f"(({t} : Int) : Rat)"
+        if ty == "nat" and want == "int":
+            return f"(({t} : Nat) : Int)"
+        if ty == "nat" and want == "rat":
+            return f"(({t} : Nat) : Rat)"
         raise Untranslatable(f"cannot use {ty} as {want}: {t}")
 
     def expr(self, n):
@@ -308,10 +312,43 @@ class SymT:
                 _fail(n, "unsupported operator")
             if isinstance(n.op, ast.Div) or "rat" in (a[1], b[1]):
                 return (f"({self.cast(a, 'rat')} {op} {self.cast(b, 'rat')})", "rat")
-            ty = "int" if "int" in (a[1], b[1]) else "num"
+            if "int" in (a[1], b[1]) or ("nat" in (a[1], b[1]) and isinstance(n.op, ast.Sub)):
+                return (f"({self.cast(a, 'int')} {op} {self.cast(b, 'int')})", "int")   # Python ints: no truncated subtraction
+            ty = "nat" if "nat" in (a[1], b[1]) else "num"
             return (f"({a[0]} {op} {b[0]})", ty)
+        if isinstance(n, (ast.GeneratorExp, ast.ListComp)) and isinstance(n.elt, ast.Tuple) \
+                and all(isinstance(e, ast.Name) for e in n.elt.elts) and len(n.elt.elts) == 2:
+            # ((i, j) for j in range(A) for i in range(B(j)))  ->  (range A).flatMap fun j => (range B).map fun i => (i, j)
+            saved = dict(self.env)
+            pieces = []
+            for g in n.generators:
+                if g.ifs or g.is_async or not isinstance(g.target, ast.Name) or not (
+                        isinstance(g.iter, ast.Call) and isinstance(g.iter.func, ast.Name) and g.iter.func.id == "range"
+                        and len(g.iter.args) == 1):
+                    _fail(n, "unsupported comprehension clause")
+                bound = self.cast(self.expr(g.iter.args[0]), "int")
+                pieces.append((g.target.id, f"(List.range ({bound}).toNat)"))
+                self.env[g.target.id] = (g.target.id, "nat")
+            for e in n.elt.elts:
+                if self.env.get(e.id, (None, None))[1] != "nat":
+                    _fail(n, "tuple element is not a loop variable")
+            elt = "(" + ", ".join(e.id for e in n.elt.elts) + ")"
+            self.env = saved
+            text = ""
+            for k, (v, rng) in enumerate(pieces):
+                text += f"{rng}.{'map' if k == len(pieces) - 1 else 'flatMap'} fun {v} => "
+            return ("(" + text + elt + ")", "list:nat×nat")
         if isinstance(n, ast.Call):
             f = n.func
+            if isinstance(f, ast.Name) and f.id == "tuple" and len(n.args) == 1 and not n.keywords:
+                v = self.expr(n.args[0])
+                if v[1].startswith("list:"):
+                    return v
+            if isinstance(f, ast.Name) and f.id == "sorted" and len(n.args) == 1 and len(n.keywords) == 1 \
+                    and n.keywords[0].arg == "key" and isinstance(n.keywords[0].value, ast.Name) and n.keywords[0].value.id == "sum":
+                v = self.expr(n.args[0])
+                if v[1] == "list:nat×nat":
+                    return (f"(sortedByKey (fun c => c.1 + c.2) {v[0]})", v[1])
             if isinstance(f, ast.Name) and f.id == "abs" and len(n.args) == 1:
                 return (f"(ratAbs {self.cast(self.expr(n.args[0]), 'rat')})", "rat")
             if isinstance(f, ast.Name) and f.id == "int" and len(n.args) == 1 and isinstance(n.args[0], ast.Call) \
@@ -526,7 +563,7 @@ def translate_typed(path, name, lean_name, params, rettypes, ignore_calls=(), st
             outs = []
     if outs is None or len(outs) != len(rts):
         raise Untranslatable(f"{name}: expected {len(rts)} returned value(s)")
-    lean_ty = {"rat": "Rat", "int": "Int", "bool": "Bool", "str": "String"}
+    lean_ty = {"rat": "Rat", "int": "Int", "bool": "Bool", "str": "String", "list:nat×nat": "List (Nat × Nat)"}
     vals = ", ".join(SymT.cast(o, t) if t in ("rat", "int") else o[0] for o, t in zip(outs, rts))
     rtype = " × ".join(lean_ty[t] for t in rts) if rts else "Unit"
 
@@ -585,6 +622,40 @@ def generate_coords():
                         ["rat", "rat"]),
     ]
     return HEADER_COORDS + "\n".join(parts) + "\nend Verde.Gen\n"
+
+
+HEADER_TREND = """/-
+  GENERATED by harness/py2lean.py from the source text of /repo on every check run — do not edit.
+  `polynomial_power_combinations` (trend.py); Props/C03.lean proves it equal to the model's explicit monomial order.
+-/
+import VerdeModel.Model.LinAlg
+namespace Verde.Gen
+open Verde
+
+"""
+GEN_TREND = os.path.join(VERIF, "lean", "VerdeModel", "Gen", "Trend.lean")
+SNAP_TREND = os.path.join(VERIF, "lean", "VerdeModel", "GenSnapshot", "Trend.lean.txt")
+
+
+def generate_trend():
+    parts = [
+        translate_typed("verde/trend.py", "polynomial_power_combinations", "powerCombinations",
+                        [("degree", "degree", "int")], ["list:nat×nat"]),
+    ]
+    return HEADER_TREND + "\n".join(parts) + "\nend Verde.Gen\n"
+
+
+def main_trend(write=True):
+    return _regen(generate_trend, GEN_TREND, SNAP_TREND, write)
+
+
+def main_kernels_and_trend(write=True):
+    """C03: regenerate both Gen/Kernels.lean and Gen/Trend.lean; combined status."""
+    s1, d1 = main(write)
+    s2, d2 = main_trend(write)
+    order_ = ["untranslatable", "changed", "ok"]
+    st = min((s1, s2), key=order_.index)
+    return st, "; ".join(d for d in (d1, d2) if d)
 
 
 def _regen(gen_fn, gen_path, snap_path, write=True):
